@@ -885,6 +885,13 @@ RESET_ROWS = [r_ for r_ in [
        tmpl="(({S.state.low_pass.state.taps}, {S.state.high_pass.state.taps}), ({S.state.low_pass.config.coefficients}, {S.state.high_pass.config.coefficients}))",
        init="(@g_wav_init T, (low, high))", binder="(low high tl th : list T)"),
 ]]
+# Hampel and Median: `Median::default()` is the model's `Median.init n` (its node formula is translated under C02, the
+# MaybeUninit loop is C19_uninit_loop_initialises); here it is an opaque constructor
+MEDIAN_DF = {"Median::default": lambda args: ("obj", "minit", "(@Median.init T n)")}
+RESET_ROWS += [
+  dict(name="hampel", file="hampel.rs", ty=r"Hampel<T,\s*N>", ctor="with_config", cfg=st(threshold=v("thr")), gen=GN, fns=MEDIAN_DF,
+       state=st(median=("obj", "minit", "s")), tmpl="{S.state.median}", init="(@Median.init T n)", binder="(n : nat) (s : mstate T) (thr : T)", imports="Model.Median"),
+]
 def reset_entries():
     for r in RESET_ROWS:
         name, ty, ctor, cfg, state, tmpl, init, gen = r["name"], r["ty"], r["ctor"], r["cfg"], r["state"], r["tmpl"], r["init"], r["gen"]
@@ -913,6 +920,9 @@ def reset_entries():
               cases=[dict(self=selfv, lhs="(%s)" % ", ".join(leaves(selfv)), vars=binder)], rhs="",
               render=lambda sym, s_, ret_, c_: "(%s)" % ", ".join(leaves(ret_)), **common)
 reset_entries()
+entry("C12", "reset_median", file=MED_RS, impl=r"impl<T,\s*const N: usize>\s+Reset\s+for\s+Median<T,\s*N>", fn="reset", params={}, imports="Model.Median",
+      fns={"Self::default": lambda args: ("struct", {"state": ("obj", "minit", "(@Median.init T n)")})},
+      cases=[dict(self=st(state=("obj", "minit", "s")), lhs="(@Median.init T n)", vars="(n : nat) (s : mstate T)")], rhs="{ret.state}")
 
 # Cache<T, U> over an ARBITRARY inner registry machine m: filter, reset, cached, from
 MACH_HDR = "forall (m : machine) (c : list Q)"
@@ -1029,6 +1039,8 @@ def run_case(ent, case, body_ast, params_txt, assume=None):
     prims = dict(ent.get("prims") or {}); prims.update(case.get("prims") or {})
     sym = Sym(prims=prims, divmode=ent.get("divmode", "total"), subs=subs)
     for fname, fd in (ent.get("fns") or {}).items():
+        if callable(fd):
+            sym.fns[fname] = fd; continue
         ffile, fimpl, ffn, fparams = fd[:4]
         sym.fns[fname] = method_def(ffile, fimpl, ffn) + tuple(fd[4:5])
         if len(sym.fns[fname][1]) != len(fparams): raise Unsupported("%s takes %d parameters, %d expected" % (fname, len(sym.fns[fname][1]), len(fparams)))
